@@ -109,6 +109,98 @@ func vEqHeader(slot uint64, tag uint64) *types.Header {
 	return h
 }
 
+// vEqBabeHeader: header as the lib/babe call site needs it: the pre-runtime digest carries the authority
+// index (= signer) and the slot.
+func vEqBabeHeader(authIdx uint32, slot uint64, tag uint64) *types.Header {
+	digest := types.NewDigest()
+	var pre *types.PreRuntimeDigest
+	var err error
+	if tag%2 == 0 {
+		pre, err = types.NewBabeSecondaryPlainPreDigest(authIdx, slot).ToPreRuntimeDigest()
+	} else {
+		pre, err = types.NewBabePrimaryPreDigest(authIdx, slot, [32]byte{}, [64]byte{}).ToPreRuntimeDigest()
+	}
+	if err == nil {
+		err = digest.Add(*pre)
+	}
+	if err != nil {
+		panic(err)
+	}
+	return types.NewHeader(vHashOf("eq-parent", slot), vHashOf("eq-sr", tag), vHashOf("eq-er", tag), uint(slot%100000)+1, digest)
+}
+
+// VerifBabeChecker is implemented by the external test package (zz_verif_c27_babe_test.go, package state_test,
+// which may import lib/babe): it drives the PRODUCTION caller of CheckEquivocation, lib/babe
+// verifier.verifyBlockEquivocation / verifyAuthorshipRight, on a real SlotState + BlockState. The current slot
+// there is wall-clock based (getCurrentSlot(slotDuration) = now / slotDuration): the checker steers it to
+// targetNow by choosing the verifier's slot duration, reads the slot actually in force before and after the call
+// (stable = both equal) and reports the equivocation proof handed to the runtime, if any.
+type VerifBabeChecker interface {
+	Signers() [3]types.AuthorityID
+	CheckEquivocation(targetNow uint64, header *types.Header) (now uint64, stable, equivocated bool,
+		proof *types.BabeEquivocationProof, err error)
+	// SealedHeader builds a sealed secondary-plain header for the slot, signed by the authority that owns the slot.
+	SealedHeader(slot uint64, tag uint64) (header *types.Header, authIdx int, err error)
+	VerifyAuthorshipRight(targetNow uint64, header *types.Header) (now uint64, stable bool,
+		proof *types.BabeEquivocationProof, err error)
+	Close()
+}
+
+// VerifNewBabeChecker is set by the init() of the external test package.
+var VerifNewBabeChecker func() (VerifBabeChecker, error)
+
+// vEqDriver abstracts the call site under test.
+type vEqDriver struct {
+	name    string
+	signers [3]types.AuthorityID
+	mk      func(slot uint64, signer int, tag uint64) *types.Header
+	// call returns the proof (nil = none), the slot_now actually used, skip = the clock ticked (abandon the case)
+	call  func(op vEqOp, signer types.AuthorityID) (proof *types.BabeEquivocationProof, now uint64, skip bool, err error)
+	close func()
+}
+
+func newStateEqDriver() (*vEqDriver, error) {
+	db, err := vNewDB()
+	if err != nil {
+		return nil, err
+	}
+	ss := NewSlotState(db)
+	return &vEqDriver{
+		name: "state", signers: vEqSigners(),
+		mk: func(slot uint64, _ int, tag uint64) *types.Header { return vEqHeader(slot, tag) },
+		call: func(op vEqOp, signer types.AuthorityID) (*types.BabeEquivocationProof, uint64, bool, error) {
+			proof, err := ss.CheckEquivocation(op.now, op.slot, op.hdr, signer)
+			return proof, op.now, false, err
+		},
+		close: func() { _ = db.Close() },
+	}, nil
+}
+
+func newBabeEqDriver() (*vEqDriver, error) {
+	if VerifNewBabeChecker == nil {
+		return nil, fmt.Errorf("external test package did not register the lib/babe checker")
+	}
+	ck, err := VerifNewBabeChecker()
+	if err != nil {
+		return nil, err
+	}
+	return &vEqDriver{
+		name: "babe", signers: ck.Signers(),
+		mk: func(slot uint64, signer int, tag uint64) *types.Header {
+			return vEqBabeHeader(uint32(signer), slot, tag)
+		},
+		call: func(op vEqOp, _ types.AuthorityID) (*types.BabeEquivocationProof, uint64, bool, error) {
+			now, stable, equivocated, proof, err := ck.CheckEquivocation(op.now, op.hdr)
+			if err == nil && equivocated != (proof != nil) {
+				err = fmt.Errorf("verifyBlockEquivocation returned equivocated=%v but a proof was reported to the runtime=%v",
+					equivocated, proof != nil)
+			}
+			return proof, now, !stable || now != op.now, err
+		},
+		close: ck.Close,
+	}, nil
+}
+
 func vEqSigners() [3]types.AuthorityID {
 	var s [3]types.AuthorityID
 	for i := range s {
@@ -130,16 +222,14 @@ type vEqHist struct {
 }
 
 // runEqSequence replays ops on a fresh SlotState and the model and compares every answer.
-func runEqSequence(c *vcommon.Case, ops []vEqOp, sweep bool) {
-	db, err := vNewDB()
-	if err != nil {
-		c.Inconclusive("cannot open in-memory db: " + err.Error())
+func runEqSequence(c *vcommon.Case, d *vEqDriver, derr error, ops []vEqOp, sweep bool) {
+	if derr != nil {
+		c.Inconclusive("cannot build the call site under test: " + derr.Error())
 		return
 	}
-	defer db.Close()
-	ss := NewSlotState(db)
+	defer d.close()
 	m := newVEqModel()
-	signers := vEqSigners()
+	signers := d.signers
 	everFirst := map[vEqHist]common.Hash{} // first header ever submitted per (slot, signer), pruned or not
 	var trace []string
 	touched := map[uint64]bool{}
@@ -148,8 +238,13 @@ func runEqSequence(c *vcommon.Case, ops []vEqOp, sweep bool) {
 
 	step := func(op vEqOp, phase string) bool {
 		signer := signers[op.signer]
+		proof, usedNow, skip, err := d.call(op, signer)
+		if skip {
+			c.Count("abandoned_clock_ticked", 1)
+			return false
+		}
+		_ = usedNow
 		wantFirst, reason := m.check(op.now, op.slot, op.hdr, signer)
-		proof, err := ss.CheckEquivocation(op.now, op.slot, op.hdr, signer)
 		trace = append(trace, fmt.Sprintf("%s now=%d slot=%d signer=%d hdr=%s -> model:%s impl:proof=%v err=%v",
 			phase, op.now, op.slot, op.signer, op.hdr.Hash().Short(), reason, proof != nil, err))
 		if len(trace) > 260 {
@@ -157,11 +252,15 @@ func runEqSequence(c *vcommon.Case, ops []vEqOp, sweep bool) {
 		}
 		c.Eval(1)
 		c.Count("checks", 1)
+		c.Count(d.name+"_checks", 1)
 		c.Count("model_"+reason, 1)
+		if d.name == "babe" {
+			c.Count("babe_model_"+reason, 1)
+		}
 		reasons = append(reasons, reason[0])
 		touched[op.slot] = true
 		w := func() map[string]any {
-			return map[string]any{"trace_tail": trace, "slot_now": op.now, "slot": op.slot, "signer": op.signer,
+			return map[string]any{"call_site": d.name, "trace_tail": trace, "slot_now": op.now, "slot": op.slot, "signer": op.signer,
 				"header": op.hdr.Hash().String(), "model": reason, "model_first_saved": m.first}
 		}
 		if op.wantProof >= 0 && (op.wantProof == 1) != (wantFirst != nil) {
@@ -204,6 +303,7 @@ func runEqSequence(c *vcommon.Case, ops []vEqOp, sweep bool) {
 		}
 		if proof != nil {
 			c.Count("proofs", 1)
+			c.Count(d.name+"_proofs", 1)
 			c.Eval(4)
 			if proof.Slot != op.slot || proof.Offender != signer {
 				c.Violation("proof_fields", fmt.Sprintf("proof slot=%d offender=%x, want slot=%d offender=%x",
@@ -274,14 +374,14 @@ func runEqSequence(c *vcommon.Case, ops []vEqOp, sweep bool) {
 				if has {
 					c.Count("sweep_retained_entry_probed", 1)
 				}
-				if !step(vEqOp{now: now, slot: s, signer: sg, hdr: vEqHeader(s, nextTag), wantProof: -1}, "sweep") {
+				if !step(vEqOp{now: now, slot: s, signer: sg, hdr: d.mk(s, sg, nextTag), wantProof: -1}, "sweep") {
 					return
 				}
 			}
 		}
 	}
 	if m.prunes > 0 || nonMono > 0 {
-		c.Distinct(string(reasons))
+		c.Distinct(d.name + ":" + string(reasons))
 	}
 	if len(trace) > 6 {
 		c.Sample(map[string]any{"ops": len(ops), "prunes": m.prunes, "last_steps": trace[len(trace)-6:]})
@@ -296,13 +396,25 @@ func sortU64(a []uint64) {
 	}
 }
 
-func eqFixedCorpus() [][]vEqOp {
-	A, B, C := vEqHeader(5000, 1), vEqHeader(5000, 2), vEqHeader(5000, 3)
-	op := func(now, slot uint64, signer int, h *types.Header, want int) vEqOp {
-		return vEqOp{now: now, slot: slot, signer: signer, hdr: h, wantProof: want}
+// eqFixedCorpus builds the hand-written sequences for a call site; headers are identified by a key and
+// built by the driver's factory (memoised per (slot, signer, key) so that "the same header again" is the same header).
+func eqFixedCorpus(d *vEqDriver) [][]vEqOp {
+	type hk struct {
+		slot   uint64
+		signer int
+		key    uint64
 	}
+	memo := map[hk]*types.Header{}
+	op := func(now, slot uint64, signer int, key uint64, want int) vEqOp {
+		k := hk{slot, signer, key}
+		if memo[k] == nil {
+			memo[k] = d.mk(slot, signer, key)
+		}
+		return vEqOp{now: now, slot: slot, signer: signer, hdr: memo[k], wantProof: want}
+	}
+	const A, B, C = 1, 2, 3
 	var out [][]vEqOp
-	// 0: basic: record, duplicate, conflict, other signer same header, other signer conflict-free
+	// 0: basic: record, duplicate, conflict, other signer, other signer conflict
 	out = append(out, []vEqOp{
 		op(5000, 5000, 0, A, 0), op(5000, 5000, 0, A, 0), op(5000, 5000, 0, B, 1), op(5001, 5000, 0, C, 1),
 		op(5001, 5000, 1, A, 0), op(5001, 5000, 1, B, 1), op(5002, 5000, 2, B, 0), op(5002, 5000, 0, A, 0),
@@ -313,45 +425,53 @@ func eqFixedCorpus() [][]vEqOp {
 	})
 	// 2: header older than the window is NOT recorded: a later conflicting check inside the window finds nothing
 	out = append(out, []vEqOp{
-		op(7000, 7000, 1, vEqHeader(7000, 9), 0), // establishes first saved slot 7000
-		op(8001, 7000, 0, A, 0),                  // too old: ignored
-		op(8000, 7000, 0, B, 0),                  // first record for signer 0 at 7000
+		op(7000, 7000, 1, 9, 0), // establishes first saved slot 7000
+		op(8001, 7000, 0, A, 0), // too old: ignored
+		op(8000, 7000, 0, B, 0), // first record for signer 0 at 7000
 		op(8000, 7000, 0, A, 1),
 	})
 	// 3: pruning at exactly first+2000; non-monotone slot_now afterwards
-	h10a, h10b := vEqHeader(10, 11), vEqHeader(10, 12)
-	h500a, h500b := vEqHeader(500, 13), vEqHeader(500, 14)
-	h1009a, h1009b := vEqHeader(1009, 15), vEqHeader(1009, 16)
-	h1010a, h1010b := vEqHeader(1010, 17), vEqHeader(1010, 18)
 	out = append(out, []vEqOp{
-		op(10, 10, 0, h10a, 0), op(500, 500, 0, h500a, 0), op(1009, 1009, 0, h1009a, 0), op(1010, 1010, 0, h1010a, 0),
-		op(2009, 1009, 0, h1009b, 1),              // 1999 after first: no pruning yet, still detected
-		op(2009, 2009, 1, vEqHeader(2009, 19), 0), // no pruning (2009-10 = 1999)
-		op(2010, 2010, 1, vEqHeader(2010, 20), 0), // prunes [10,1010), first := 1010
-		op(1500, 500, 0, h500b, 0),                // forgotten
-		op(1500, 1009, 0, h1009b, 0),              // forgotten (1009 < 1010); this records h1009b again
-		op(1500, 1010, 0, h1010b, 1),              // retained
-		op(1009, 10, 0, h10b, 0),                  // slot_now < first saved slot
-		op(1010, 10, 0, h10b, 0),                  // forgotten, recorded anew below the start
-		op(1010, 10, 0, h10a, 1),                  // conflicts with the new record
-		op(2010, 1010, 0, h1010b, 1), op(2011, 1010, 0, h1010b, 0),
+		op(10, 10, 0, 11, 0), op(500, 500, 0, 13, 0), op(1009, 1009, 0, 15, 0), op(1010, 1010, 0, 17, 0),
+		op(2009, 1009, 0, 16, 1), // 1999 after first: no pruning yet, still detected
+		op(2009, 2009, 1, 19, 0), // no pruning (2009-10 = 1999)
+		op(2010, 2010, 1, 20, 0), // prunes [10,1010), first := 1010
+		op(1500, 500, 0, 14, 0),  // forgotten
+		op(1500, 1009, 0, 16, 0), // forgotten (1009 < 1010); this records header 16 again
+		op(1500, 1010, 0, 18, 1), // retained
+		op(1009, 10, 0, 12, 0),   // slot_now < first saved slot
+		op(1010, 10, 0, 12, 0),   // forgotten, recorded anew below the start
+		op(1010, 10, 0, 11, 1),   // conflicts with the new record
+		op(2010, 1010, 0, 18, 1), op(2011, 1010, 0, 18, 0),
 	})
 	// 4: small slots: saturating subtraction near zero
 	out = append(out, []vEqOp{
-		op(0, 0, 0, vEqHeader(0, 30), 0), op(0, 0, 0, vEqHeader(0, 31), 1), op(3, 5, 0, vEqHeader(5, 32), 0),
-		op(0, 5, 0, vEqHeader(5, 33), 1), op(1000, 0, 0, vEqHeader(0, 34), 1), op(1001, 0, 0, vEqHeader(0, 35), 0),
-		op(1999, 999, 2, vEqHeader(999, 36), 0), op(2000, 1000, 2, vEqHeader(1000, 37), 0), // prune: first := 1000
-		op(1000, 0, 0, vEqHeader(0, 38), 0), op(1000, 5, 0, vEqHeader(5, 39), 0),
+		op(0, 0, 0, 30, 0), op(0, 0, 0, 31, 1), op(3, 5, 0, 32, 0),
+		op(0, 5, 0, 33, 1), op(1000, 0, 0, 34, 1), op(1001, 0, 0, 35, 0),
+		op(1999, 999, 2, 36, 0), op(2000, 1000, 2, 37, 0), // prune: first := 1000
+		op(1000, 0, 0, 38, 0), op(1000, 5, 0, 39, 0),
 	})
 	// 5: slot_now before the first saved slot, future slots
 	out = append(out, []vEqOp{
-		op(9000, 9000, 0, vEqHeader(9000, 40), 0), op(8999, 8999, 0, vEqHeader(8999, 41), 0), op(9000, 8999, 0, vEqHeader(8999, 42), 0),
-		op(9000, 8999, 0, vEqHeader(8999, 43), 1), op(9000, 9500, 1, vEqHeader(9500, 44), 0), op(9000, 9500, 1, vEqHeader(9500, 45), 1),
+		op(9000, 9000, 0, 40, 0), op(8999, 8999, 0, 41, 0), op(9000, 8999, 0, 42, 0),
+		op(9000, 8999, 0, 43, 1), op(9000, 9500, 1, 44, 0), op(9000, 9500, 1, 45, 1),
+	})
+	// 6: a header for a slot BELOW the first recorded slot, still inside the window of the current slot, is
+	// recorded and a conflicting second header is reported (a caller that passes the header's own slot as the
+	// current slot returns early here: slot < first saved slot)
+	out = append(out, []vEqOp{
+		op(20000, 20000, 0, 50, 0), op(20000, 19995, 0, 51, 0), op(20000, 19995, 0, 52, 1), op(20001, 19001, 1, 53, 0),
+		op(20001, 19001, 1, 54, 1),
+	})
+	// 7: headers more than 1000 slots behind the current slot are neither recorded nor reported
+	out = append(out, []vEqOp{
+		op(30000, 30000, 0, 60, 0), op(31500, 30000, 1, 61, 0), op(31500, 30000, 1, 62, 0), op(31001, 30000, 0, 63, 0),
+		op(31000, 30000, 0, 63, 1),
 	})
 	return out
 }
 
-func genEqSequence(c *vcommon.Case) []vEqOp {
+func genEqSequence(c *vcommon.Case, d *vEqDriver) []vEqOp {
 	r := c.R
 	n := r.Range(20, 200)
 	var now uint64
@@ -364,7 +484,7 @@ func genEqSequence(c *vcommon.Case) []vEqOp {
 		now = uint64(r.Range(3000, 2_000_000))
 	}
 	m := newVEqModel() // shadow model used only to aim the generator at the bounds (first saved slot)
-	signers := vEqSigners()
+	signers := d.signers
 	type key struct {
 		slot   uint64
 		signer int
@@ -430,11 +550,11 @@ func genEqSequence(c *vcommon.Case) []vEqOp {
 		switch {
 		case len(used[k]) > 0 && r.Chance(2, 5): // duplicate of something this signer already submitted
 			h = vcommon.Pick(r, used[k])
-		case len(bySlot[slot]) > 0 && r.Chance(1, 4): // a header another signer submitted for this slot
+		case d.name == "state" && len(bySlot[slot]) > 0 && r.Chance(1, 4): // a header another signer submitted for this slot
 			h = vcommon.Pick(r, bySlot[slot])
 		default:
 			tag++
-			h = vEqHeader(slot, tag)
+			h = d.mk(slot, sg, tag)
 		}
 		if len(bySlot[slot]) == 0 {
 			usedSlots = append(usedSlots, slot)
@@ -445,6 +565,154 @@ func genEqSequence(c *vcommon.Case) []vEqOp {
 		ops = append(ops, vEqOp{now: now, slot: slot, signer: sg, hdr: h, wantProof: -1})
 	}
 	return ops
+}
+
+// runEqSealed drives the full production path lib/babe verifier.verifyAuthorshipRight with SEALED headers
+// (secondary-plain claims signed by the slot's owner): seal verification, then the equivocation step as the
+// node runs it. Same model; the header identity is the sealed header's hash. script == nil: random sequence.
+// script entries: header key (same key = identical header), negative key = SCALE re-decoded copy of header -key.
+func runEqSealed(c *vcommon.Case, script []int) {
+	if VerifNewBabeChecker == nil {
+		c.Inconclusive("external test package did not register the lib/babe checker")
+		return
+	}
+	ck, err := VerifNewBabeChecker()
+	if err != nil {
+		c.Inconclusive("cannot build lib/babe checker: " + err.Error())
+		return
+	}
+	defer ck.Close()
+	r := c.R
+	m := newVEqModel()
+	signers := ck.Signers()
+	base := uint64(40000 + r.Intn(1_000_000))
+	slots := []uint64{base, base - 1, base - uint64(r.Range(2, 900)), base - 1000}
+	type sealed struct {
+		hdr   *types.Header
+		slot  uint64
+		owner int
+	}
+	var made []sealed
+	byKey := map[int]sealed{}
+	var trace []string
+	now := base
+	n := len(script)
+	if script == nil {
+		n = r.Range(8, 24)
+	}
+	for i := 0; i < n; i++ {
+		var h sealed
+		kind := "new"
+		mkNew := func(slot uint64) bool {
+			hd, owner, err := ck.SealedHeader(slot, uint64(c.Idx)<<16+uint64(len(made))+1)
+			if err != nil {
+				c.Inconclusive("cannot seal header: " + err.Error())
+				return false
+			}
+			h = sealed{hd, slot, owner}
+			made = append(made, h)
+			return true
+		}
+		redecode := func(src sealed) bool {
+			enc, err := scale.Marshal(*src.hdr)
+			cp := types.NewEmptyHeader()
+			if err == nil {
+				err = scale.Unmarshal(enc, cp)
+			}
+			if err != nil {
+				c.Inconclusive("cannot re-decode header: " + err.Error())
+				return false
+			}
+			h = sealed{cp, src.slot, src.owner}
+			return true
+		}
+		if script != nil {
+			k := script[i]
+			switch {
+			case k < 0:
+				kind = "identical(re-decoded)"
+				if !redecode(byKey[-k]) {
+					return
+				}
+			case byKey[k].hdr != nil:
+				kind = "identical"
+				h = byKey[k]
+			default:
+				if !mkNew(slots[0]) {
+					return
+				}
+				byKey[k] = h
+			}
+		} else {
+			now += uint64(r.Intn(2))
+			switch {
+			case len(made) > 0 && r.Chance(1, 4):
+				kind = "identical"
+				h = vcommon.Pick(r, made)
+			case len(made) > 0 && r.Chance(1, 3):
+				kind = "identical(re-decoded)"
+				if !redecode(vcommon.Pick(r, made)) {
+					return
+				}
+			default:
+				if !mkNew(vcommon.Pick(r, slots)) {
+					return
+				}
+			}
+		}
+		usedNow, stable, proof, verr := ck.VerifyAuthorshipRight(now, h.hdr)
+		if !stable || usedNow != now {
+			c.Count("abandoned_clock_ticked", 1)
+			return
+		}
+		wantFirst, reason := m.check(now, h.slot, h.hdr, signers[h.owner])
+		trace = append(trace, fmt.Sprintf("now=%d slot=%d owner=%d %s hdr=%s -> model:%s impl: err=%v proof=%v",
+			now, h.slot, h.owner, kind, h.hdr.Hash().Short(), reason, verr, proof != nil))
+		c.Eval(1)
+		c.Count("sealed_checks", 1)
+		c.Count("sealed_model_"+reason, 1)
+		if kind != "new" {
+			c.Count("sealed_identical_header_rechecked", 1)
+		}
+		w := map[string]any{"call_site": "lib/babe verifyAuthorshipRight", "trace": trace, "model": reason}
+		if wantFirst == nil {
+			if proof != nil || verr != nil {
+				cls := "spurious_proof"
+				if reason == "duplicate" {
+					cls = "proof_for_identical_header"
+				}
+				c.Violation(cls, fmt.Sprintf("verifyAuthorshipRight(%s header, model: %s) returned err=%v, proof reported=%v",
+					kind, reason, verr, proof != nil), w)
+				return
+			}
+			continue
+		}
+		c.Count("sealed_proofs_expected", 1)
+		if proof == nil || verr == nil {
+			c.Violation("missed_equivocation", fmt.Sprintf("verifyAuthorshipRight: model %s, err=%v proof reported=%v", reason, verr, proof != nil), w)
+			return
+		}
+		c.Eval(3)
+		if proof.Slot != h.slot || proof.Offender != signers[h.owner] {
+			c.Violation("proof_fields", fmt.Sprintf("proof slot=%d offender=%x", proof.Slot, proof.Offender[:4]), w)
+			return
+		}
+		if proof.FirstHeader.Hash() != wantFirst.Hash() || !vHeaderEq(&proof.FirstHeader, wantFirst) {
+			c.Violation("proof_first_header", fmt.Sprintf("first header of the proof is %s (%d digest items), the header verified first was %s (%d digest items)",
+				proof.FirstHeader.Hash().Short(), len(proof.FirstHeader.Digest), wantFirst.Hash().Short(), len(wantFirst.Digest)), w)
+			return
+		}
+		if !vHeaderEq(&proof.SecondHeader, h.hdr) {
+			c.Violation("proof_second_header", fmt.Sprintf("second header of the proof has %d digest items, the verified header %d",
+				len(proof.SecondHeader.Digest), len(h.hdr.Digest)), w)
+			return
+		}
+		c.Count("sealed_proofs", 1)
+	}
+	c.Distinct(fmt.Sprintf("sealed:%d:%d", len(made), n))
+	if len(trace) > 3 {
+		c.Sample(map[string]any{"call_site": "lib/babe verifyAuthorshipRight", "last_steps": trace[len(trace)-3:]})
+	}
 }
 
 func TestVerifC27(t *testing.T) {
@@ -461,7 +729,54 @@ func TestVerifC27(t *testing.T) {
 	r.Floor("sweep_forgotten_entry_probed", 20)
 	r.Floor("sweep_retained_entry_probed", 100)
 
-	corpus := eqFixedCorpus()
-	r.Fixed("corpus", len(corpus), func(c *vcommon.Case) { runEqSequence(c, corpus[c.Idx], true) })
-	r.Cases("seq", r.Scale(400), func(c *vcommon.Case) { runEqSequence(c, genEqSequence(c), true) })
+	r.Floor("babe_checks", 3000)
+	r.Floor("babe_model_equivocation", 100)
+	r.Floor("babe_model_too_old", 100)
+	r.Floor("babe_model_now_before_first", 50)
+	r.Floor("babe_model_duplicate", 30)
+	r.Floor("sealed_identical_header_rechecked", 100)
+	r.Floor("sealed_proofs", 50)
+
+	nCorpus := 8
+	r.Fixed("corpus", nCorpus, func(c *vcommon.Case) {
+		d, err := newStateEqDriver()
+		if err != nil {
+			runEqSequence(c, nil, err, nil, false)
+			return
+		}
+		runEqSequence(c, d, nil, eqFixedCorpus(d)[c.Idx], true)
+	})
+	r.Cases("seq", r.Scale(400), func(c *vcommon.Case) {
+		d, err := newStateEqDriver()
+		if err != nil {
+			runEqSequence(c, nil, err, nil, false)
+			return
+		}
+		runEqSequence(c, d, nil, genEqSequence(c, d), true)
+	})
+	// the production caller: lib/babe verifier.verifyBlockEquivocation (current slot from the wall clock)
+	r.Fixed("babe_corpus", nCorpus, func(c *vcommon.Case) {
+		d, err := newBabeEqDriver()
+		if err != nil {
+			runEqSequence(c, nil, err, nil, false)
+			return
+		}
+		runEqSequence(c, d, nil, eqFixedCorpus(d)[c.Idx], true)
+	})
+	r.Cases("babe_seq", r.Scale(120), func(c *vcommon.Case) {
+		d, err := newBabeEqDriver()
+		if err != nil {
+			runEqSequence(c, nil, err, nil, false)
+			return
+		}
+		runEqSequence(c, d, nil, genEqSequence(c, d), true)
+	})
+	// full verifyAuthorshipRight with sealed headers
+	sealedCorpus := [][]int{
+		{1, 1},           // the same header verified twice
+		{1, -1},          // ... the second time freshly decoded
+		{1, 2, 1, -1, 3}, // conflict, then the first header again, then another conflict
+	}
+	r.Fixed("babe_sealed_corpus", len(sealedCorpus), func(c *vcommon.Case) { runEqSealed(c, sealedCorpus[c.Idx]) })
+	r.Cases("babe_sealed", r.Scale(60), func(c *vcommon.Case) { runEqSealed(c, nil) })
 }
